@@ -603,3 +603,41 @@ func (m *MetaVariant) GetMaybeFilesForQuery(ctx context.Context, q *bs.QueryPref
 		}
 	}
 }
+
+
+// ScanMetaStore is a MetaStore that IS the DataStore (the in-memory counterpart
+// of FileSystemDataStore used as MetaStore): the referenced files are whatever
+// complete bloom files the DataStore holds (a file becomes visible when its
+// writer's Close publishes it), metadata is read from each file's own footer,
+// and Update removes the deleted files. Cloneable with its MemDataStore, which
+// is what the per-position fault enumeration needs.
+type ScanMetaStore struct{ DS *MemDataStore }
+
+func (m *ScanMetaStore) GetMaybeFilesForQuery(ctx context.Context, q *bs.QueryPrefilter) iter.Seq2[bs.MaybeFile, error] {
+	return func(yield func(bs.MaybeFile, error) bool) {
+		files := m.DS.Files()
+		ptrs := make([]string, 0, len(files))
+		for p := range files {
+			ptrs = append(ptrs, p)
+		}
+		sort.Strings(ptrs)
+		for _, p := range ptrs {
+			meta, _, err := bs.ReadFileMetadata(bytes.NewReader(files[p]))
+			if err != nil {
+				continue // not (yet) a complete bloom file
+			}
+			if !yield(bs.MaybeFile{PointerBytes: []byte(p), Metadata: *meta}, nil) {
+				return
+			}
+		}
+	}
+}
+
+func (m *ScanMetaStore) Update(ctx context.Context, writes []bs.WriteOperation, deletes []bs.DeleteOperation) error {
+	m.DS.mu.Lock()
+	defer m.DS.mu.Unlock()
+	for _, d := range deletes {
+		delete(m.DS.files, string(d.FilePointerBytes))
+	}
+	return nil
+}
